@@ -83,6 +83,7 @@ def run_case(spec, inputs=None):
         if tr["puts"] or tr["files"] or tr["outcome"] == "not_enough":
             sigs.append([spec["env"], spec["estimator"], spec["gate"], tr["save_output"], tr["summary"]])
     out["sets"]["traces"] = sigs
+    out["sigs"] = sigs
     out["nontrivial"] = bool(sigs)
     if spec["estimator"] == "gaussian" and spec["env"] == "prod" and spec["gate"] == "pass":
         full = [t for t in traces if set(t["save_output"]) == set(OPTIONS)]
